@@ -8,6 +8,7 @@ import Sbepp.Drive.C14
 import Sbepp.Drive.C12
 import Sbepp.Drive.C13
 import Sbepp.Drive.C16
+import Sbepp.Drive.C06
 import Sbepp.Drive.Wire
 
 open Sbepp.Drive
@@ -20,6 +21,7 @@ def dispatch (line : String) : String :=
   else if line.startsWith "decode " then Wire.decode (payloadOf line "decode")
   else if line.startsWith "encode " then Wire.encode (payloadOf line "encode")
   else if line.startsWith "visit " then Wire.visit (payloadOf line "visit")
+  else if line.startsWith "checked " then C06.handle (payloadOf line "checked")
   else
   match (line.trimAscii.toString.splitOn " ").filter (· ≠ "") with
   | [] => ""
